@@ -91,7 +91,7 @@ func c10HardCert(c *Ctx, m *shimModel) {
 	c.Check(w.Expr(cast.Call.Args[0]) == "p1", "R1.hardcert", "AddHardCert|casts the offered key", w.Pos(cast.Pos()), "cast(key)", "the certificate examined is not the offered key")
 	certV := extractOf(cast, 0)
 	nIns := 0
-	for _, a := range w.FieldAccesses(m.Server, m.fCerts) {
+	for _, a := range w.FieldAccesses(m.Owner(m.fCerts), m.fCerts) {
 		if a.Fn != fn || a.Kind != "mapwrite" {
 			continue
 		}
@@ -179,7 +179,7 @@ func hardCertHeld(c *Ctx, m *shimModel, fn *ssa.Function, rule string) {
 	f := w.Facts(fn)
 	// success means: already present, or inserted on this path
 	var inserts []ssa.Instruction
-	for _, a := range w.FieldAccesses(m.Server, m.fCerts) {
+	for _, a := range w.FieldAccesses(m.Owner(m.fCerts), m.fCerts) {
 		if a.Fn == fn && a.Kind == "mapwrite" {
 			inserts = append(inserts, a.Instr)
 		}
@@ -563,7 +563,7 @@ func c10Deletions(c *Ctx, m *shimModel) {
 	ctor := shimConstructor(w, m)
 	var remove *ssa.Function
 	n := 0
-	for _, a := range w.FieldAccesses(m.Server, m.fCerts) {
+	for _, a := range w.FieldAccesses(m.Owner(m.fCerts), m.fCerts) {
 		switch a.Kind {
 		case "mapdelete":
 			n++
@@ -595,7 +595,7 @@ func c10Deletions(c *Ctx, m *shimModel) {
 	if remove != nil {
 		// the removal helper drops the removed key's own entry and no other: every delete from the table on its tree is
 		// keyed by hash(key.Marshal()) of its parameter (a still-valid certificate over that key is not the key's entry)
-		for _, a := range w.FieldAccesses(m.Server, m.fCerts) {
+		for _, a := range w.FieldAccesses(m.Owner(m.fCerts), m.fCerts) {
 			if a.Kind != "mapdelete" || (a.Home() != remove && !w.inTree(remove, a.Home())) {
 				continue
 			}
@@ -612,7 +612,7 @@ func c10Deletions(c *Ctx, m *shimModel) {
 		// removing makes it disappear: every successful return of the removal helper was preceded by the deletion of
 		// the key's in-memory entry, or by the failed-lookup edge of a test that the entry is absent
 		through := map[ssa.Instruction]bool{}
-		for _, a := range w.FieldAccesses(m.Server, m.fCerts) {
+		for _, a := range w.FieldAccesses(m.Owner(m.fCerts), m.fCerts) {
 			if a.Fn != remove {
 				continue
 			}
